@@ -247,6 +247,7 @@ fn gen_small_schema(rng: &mut Rng) -> Ty {
 		decimals: rng.chance(1, 3),
 		max_fields: 1 + rng.below(4) as u32,
 		record_bias: rng.chance(1, 2),
+		wide_decimal_fixed: false,
 	};
 	ast::gen_schema(rng, cfg)
 }
@@ -257,7 +258,7 @@ fn gen_one(rng: &mut Rng, env: &Env, ty: &Ty) -> Val {
 }
 
 fn vcfg(rng: &mut Rng) -> ValCfg {
-	ValCfg { max_len: 1 + rng.usize(3), max_depth: 3, budget: 6 + rng.below(14) as i32, str_boost: 0 }
+	ValCfg { max_len: 1 + rng.usize(3), max_depth: 3, budget: 6 + rng.below(14) as i32, str_boost: 0, scale: None }
 }
 
 fn encode(schema: &Schema, env: &Env, ty: &Ty, v: &Val, pres: PresCfg) -> Result<Vec<u8>, String> {
@@ -639,7 +640,8 @@ fn t_reader(rng: &mut Rng, stats: &mut Stats) {
 		}
 	} else {
 		// owned reader (Cursor<Vec<u8>>): can be moved across threads
-		let mut reader = Reader::from_reader(std::io::Cursor::new(file.clone())).unwrap_or_else(|e| mismatch!("Reader::from_reader: {e}"));
+		let cap = *rng.pick(&[1usize, 3, 7, 64, 8192]);
+		let mut reader = Reader::from_reader(std::io::BufReader::with_capacity(cap, std::io::Cursor::new(file.clone()))).unwrap_or_else(|e| mismatch!("Reader::from_reader: {e}"));
 		let k = rng.usize(vals.len() + 1);
 		stats.op("read-n:reader");
 		{
@@ -681,6 +683,129 @@ fn t_reader(rng: &mut Rng, stats: &mut Stats) {
 			};
 			read_k(&mut next, vals.len() - k, k);
 		}
+	}
+}
+
+/// A reader is an ordinary value: it may be moved at any moment between two calls — out of a Box (the heap slot is
+/// freed), by a Vec that reallocates, by a swap with another reader, by being returned from a function — and must go on
+/// exactly as before. Whatever it keeps between calls must therefore not point into the Reader value itself.
+fn t_reader_moves(rng: &mut Rng, stats: &mut Stats) {
+	let ty = gen_small_schema(rng);
+	let env = Env::build(&ty);
+	let schema: Schema = ast::to_json(&ty).parse().unwrap_or_else(|e| mismatch!("schema rejected: {e}"));
+	let vals: Vec<Val> = (0..2 + rng.usize(5)).map(|_| gen_one(rng, &env, &ty)).collect();
+	let vals_b: Vec<Val> = (0..2 + rng.usize(3)).map(|_| gen_one(rng, &env, &ty)).collect();
+	let (codec, cname) = pick_codec(rng);
+	let file = make_file(&schema, &env, &ty, &vals, codec, rng);
+	let file_b = make_file(&schema, &env, &ty, &vals_b, codec, rng);
+	drop(schema);
+	stats.op(match cname {
+		"null" => "moves:null",
+		"deflate" => "moves:deflate",
+		"snappy" => "moves:snappy",
+		"bzip2" => "moves:bzip2",
+		"xz" => "moves:xz",
+		_ => "moves:zstandard",
+	});
+	macro_rules! next_of {
+		($r:expr) => {{
+			let ctx = CapCtx::new(&env);
+			$r.deserialize_seed_next(Capture { ty: &ty, ctx: &ctx }).map_err(|e| e.to_string())
+		}};
+	}
+	macro_rules! expect_vals {
+		($r:expr, $vals:expr, $from:expr, $n:expr, $what:expr) => {{
+			for i in $from..$from + $n {
+				match next_of!($r) {
+					Ok(Some(v)) if $vals.get(i) == Some(&v) => {}
+					other => mismatch!("{}: reader yielded {other:?} at {i}, expected {:?}", $what, $vals.get(i)),
+				}
+			}
+		}};
+	}
+	macro_rules! expect_end {
+		($r:expr, $what:expr) => {{
+			match next_of!($r) {
+				Ok(None) => {}
+				other => mismatch!("{}: reader yielded {other:?} where the file ends", $what),
+			}
+		}};
+	}
+	macro_rules! scenario {
+		($open:expr, $open_b:expr) => {{
+			let k = 1 + rng.usize(vals.len() - 1);
+			match rng.below(5) {
+				0 => {
+					stats.op("move:out-of-box-mid-block");
+					let mut boxed = Box::new($open);
+					expect_vals!(boxed, vals, 0, k, "boxed");
+					let mut r = *boxed; // the heap slot is freed here
+					// something else takes the freed slot
+					let mut other = Box::new($open_b);
+					expect_vals!(other, vals_b, 0, 1, "second reader in the freed slot");
+					expect_vals!(r, vals, k, vals.len() - k, "after the move out of the box");
+					expect_end!(r, "after the move out of the box");
+					expect_vals!(other, vals_b, 1, vals_b.len() - 1, "second reader");
+					expect_end!(other, "second reader");
+				}
+				1 => {
+					stats.op("move:vec-reallocation-mid-block");
+					let mut v = Vec::with_capacity(1);
+					v.push($open);
+					expect_vals!(v[0], vals, 0, k, "in a vec");
+					v.push($open_b); // reallocates: both readers move, the old buffer is freed
+					v.reserve(64);
+					expect_vals!(v[1], vals_b, 0, 1, "second reader in the vec");
+					expect_vals!(v[0], vals, k, vals.len() - k, "after the vec reallocated");
+					expect_end!(v[0], "after the vec reallocated");
+					expect_vals!(v[1], vals_b, 1, vals_b.len() - 1, "second reader in the vec");
+				}
+				2 => {
+					stats.op("move:swap-two-readers-mid-block");
+					let mut a = $open;
+					let mut b = $open_b;
+					expect_vals!(a, vals, 0, k, "a");
+					expect_vals!(b, vals_b, 0, 1, "b");
+					std::mem::swap(&mut a, &mut b);
+					expect_vals!(b, vals, k, vals.len() - k, "a's reader, now in b");
+					expect_end!(b, "a's reader, now in b");
+					expect_vals!(a, vals_b, 1, vals_b.len() - 1, "b's reader, now in a");
+					expect_end!(a, "b's reader, now in a");
+				}
+				3 => {
+					stats.op("move:returned-from-a-function-mid-block");
+					#[inline(never)]
+					fn through<T>(make: impl FnOnce() -> T, first: impl FnOnce(&mut T)) -> Box<T> {
+						let mut local = make();
+						first(&mut local);
+						Box::new(local)
+					}
+					let mut r = through(|| $open, |r| expect_vals!(r, vals, 0, k, "inside the function"));
+					expect_vals!(r, vals, k, vals.len() - k, "after being returned");
+					expect_end!(r, "after being returned");
+				}
+				_ => {
+					stats.op("move:into-box-then-option-take-mid-block");
+					let mut slot = Some(Box::new($open));
+					expect_vals!(slot.as_mut().unwrap(), vals, 0, k, "in the slot");
+					let mut r = *slot.take().unwrap();
+					let filler: Vec<Box<[u64; 48]>> = (0..8).map(|i| Box::new([i as u64; 48])).collect();
+					expect_vals!(r, vals, k, vals.len() - k, "after take");
+					expect_end!(r, "after take");
+					drop(filler);
+				}
+			}
+		}};
+	}
+	if rng.bool() {
+		stats.op("moves:slice-reader");
+		scenario!(Reader::from_slice(&file).unwrap_or_else(|e| mismatch!("Reader::from_slice: {e}")), Reader::from_slice(&file_b).unwrap_or_else(|e| mismatch!("Reader::from_slice: {e}")));
+	} else {
+		stats.op("moves:bufread-reader");
+		scenario!(
+			Reader::from_reader(std::io::BufReader::with_capacity(*rng.pick(&[1usize, 5, 64, 8192]), std::io::Cursor::new(file.clone()))).unwrap_or_else(|e| mismatch!("Reader::from_reader: {e}")),
+			Reader::from_reader(std::io::BufReader::with_capacity(*rng.pick(&[1usize, 5, 64, 8192]), std::io::Cursor::new(file_b.clone()))).unwrap_or_else(|e| mismatch!("Reader::from_reader: {e}"))
+		);
 	}
 }
 
@@ -804,6 +929,100 @@ fn t_reader_seed_borrow(rng: &mut Rng, stats: &mut Stats) {
 	}
 }
 
+/// The BufRead-based input path keeps a scratch buffer across values, blocks and files' worth of reads: values of
+/// widely varying sizes (growing, shrinking, growing again, a few above 8 KiB and 64 KiB) delivered through readers
+/// whose buffer is far smaller than the values, so that nearly every length-delimited value goes through that
+/// scratch buffer. The detector watches the buffer's allocation; the values are compared with what was written.
+fn t_scratch(rng: &mut Rng, stats: &mut Stats) {
+	#[derive(serde_derive::Serialize, serde_derive::Deserialize, PartialEq, Debug, Clone)]
+	struct Blobs {
+		a: String,
+		#[serde(with = "serde_bytes")]
+		b: Vec<u8>,
+		m: std::collections::BTreeMap<String, i32>,
+	}
+	const JSON: &str = r#"{"type":"record","name":"t.Blobs","fields":[{"name":"a","type":"string"},{"name":"b","type":"bytes"},{"name":"m","type":{"type":"map","values":"int"}}]}"#;
+	let schema: Schema = JSON.parse().unwrap();
+	let size = |rng: &mut Rng| -> usize {
+		if cfg!(miri) {
+			// the interpreter is a thousand times slower: same growth / shrink patterns, two orders of magnitude smaller
+			return match rng.below(6) {
+				0 => 0,
+				1 | 2 => rng.usize(6),
+				3 | 4 => rng.usize(40),
+				_ => 40 + rng.usize(300),
+			};
+		}
+		match rng.below(12) {
+			0 => 0,
+			1..=4 => rng.usize(12),
+			5..=7 => rng.usize(200),
+			8 | 9 => 200 + rng.usize(3000),
+			10 => 8000 + rng.usize(2000),
+			_ => {
+				if rng.chance(1, 6) {
+					65000 + rng.usize(9000)
+				} else {
+					10_000 + rng.usize(40_000)
+				}
+			}
+		}
+	};
+	let n = 2 + rng.usize(6);
+	let vals: Vec<Blobs> = (0..n)
+		.map(|i| {
+			let (la, lb) = (size(rng), size(rng));
+			Blobs {
+				a: (0..la).map(|j| (b'a' + ((i + j * 7) % 26) as u8) as char).collect(),
+				b: (0..lb).map(|j| (i * 31 + j) as u8).collect(),
+				m: (0..rng.usize(3)).map(|k| ("k".repeat(1 + size(rng) % 300) + &k.to_string(), k as i32)).collect(),
+			}
+		})
+		.collect();
+	let cap = *rng.pick(&[1usize, 2, 3, 5, 8, 16, 64, 512, 8192]);
+	stats.op(match cap {
+		1..=8 => "scratch:reader-buffer-of-1-to-8-bytes",
+		9..=512 => "scratch:reader-buffer-of-16-to-512-bytes",
+		_ => "scratch:reader-buffer-of-8-kib",
+	});
+	if rng.bool() {
+		// datum after datum on ONE reader: the scratch buffer lives in the DeserializerState, which is handed on
+		stats.op("scratch:datums-on-one-reader");
+		let mut stream = vec![];
+		for v in &vals {
+			stream.extend(serde_avro_fast::to_datum_vec(v, &mut SerializerConfig::new(&schema)).unwrap_or_else(|e| mismatch!("to_datum_vec: {e}")));
+		}
+		let src = std::io::BufReader::with_capacity(cap, std::io::Cursor::new(stream));
+		let mut state = serde_avro_fast::de::DeserializerState::new(serde_avro_fast::de::read::ReaderRead::new(src), &schema);
+		for (i, v) in vals.iter().enumerate() {
+			let got: Blobs = serde::Deserialize::deserialize(state.deserializer()).unwrap_or_else(|e| mismatch!("datum {i}: {e}"));
+			if &got != v {
+				mismatch!("datum {i} read through a {cap}-byte reader buffer differs: lengths {} / {} vs written {} / {}", got.a.len(), got.b.len(), v.a.len(), v.b.len());
+			}
+		}
+	} else {
+		stats.op("scratch:container-file");
+		let (codec, _) = pick_codec(rng);
+		let mut config = SerializerConfig::new(&schema);
+		let mut w = WriterBuilder::new(&mut config).compression(codec).approx_block_size(*rng.pick(&[0u32, 300, 64 * 1024, 1 << 20])).build(Vec::new()).unwrap();
+		for v in &vals {
+			w.serialize(v).unwrap_or_else(|e| mismatch!("serialize: {e}"));
+		}
+		let file = w.into_inner().unwrap_or_else(|e| mismatch!("into_inner: {e}"));
+		let mut reader = Reader::from_reader(std::io::BufReader::with_capacity(cap, std::io::Cursor::new(file))).unwrap_or_else(|e| mismatch!("from_reader: {e}"));
+		for (i, v) in vals.iter().enumerate() {
+			match reader.deserialize_next::<Blobs>() {
+				Ok(Some(got)) if &got == v => {}
+				Ok(Some(got)) => mismatch!("value {i} read through a {cap}-byte reader buffer differs: lengths {} / {} vs written {} / {}", got.a.len(), got.b.len(), v.a.len(), v.b.len()),
+				other => mismatch!("value {i}: {:?}", other.map(|o| o.is_some()).map_err(|e| e.to_string())),
+			}
+		}
+		if !matches!(reader.deserialize_next::<Blobs>(), Ok(None)) {
+			mismatch!("more values than were written");
+		}
+	}
+}
+
 /// several threads use one schema at once; results must equal the sequential ones
 fn t_threads(rng: &mut Rng, stats: &mut Stats) {
 	let ty = gen_small_schema(rng);
@@ -909,11 +1128,13 @@ fn main() {
 		let mut rng = Rng::for_run(seed, "C10", i);
 		let t = match mode {
 			"threads-only" => 5,
-			"no-threads" => match rng.below(6) {
+			"no-threads" => match rng.below(10) {
 				5 => 7,
+				6 | 7 => 9,
+				8 | 9 => 11,
 				x => x,
 			},
-			_ => rng.below(9),
+			_ => rng.below(13),
 		};
 		let name = match t {
 			0 => {
@@ -939,6 +1160,14 @@ fn main() {
 			7 | 8 => {
 				t_reader_seed_borrow(&mut rng, &mut stats);
 				"reader-seed-borrow"
+			}
+			9 | 10 => {
+				t_reader_moves(&mut rng, &mut stats);
+				"reader-moves"
+			}
+			11 | 12 => {
+				t_scratch(&mut rng, &mut stats);
+				"scratch-buffer"
 			}
 			_ => {
 				t_threads(&mut rng, &mut stats);
